@@ -223,6 +223,110 @@ theorem mem_getDomain_auth {s : Store} {n : Name} {sub : Bool} {now : Nat} {x : 
     simp only [Filter.auth, Bool.false_eq_true, if_false] at hc
     exact ⟨_, b, Store.bucket_mem hc, hx⟩
 
+/-! #### `ReplyFits` from the size of the store -/
+
+/-- the locally registered records, bucket by bucket -/
+def authRecords (s : Store) : List RR :=
+  s.entries.flatMap (fun e => (e.2.filter (fun x => (Filter.auth true).matches x.2 0)).map (·.1))
+
+theorem Filter.auth_matches_eq (sub : Bool) (k : Kind) (now : Nat) :
+    (Filter.auth sub).matches k now = (Filter.auth true).matches k 0 := by
+  cases k <;> rfl
+
+theorem groups_length_le {A B : Type} (l : List A) (p : A → Bool) (g : A → List B) :
+    (((l.filter p).map g).filter (fun x => !x.isEmpty)).flatten.length ≤ (l.flatMap g).length := by
+  induction l with
+  | nil => simp
+  | cons a l ih =>
+    simp only [List.flatMap_cons, List.length_append]
+    by_cases hp : p a = true
+    · rw [List.filter_cons_of_pos hp, List.map_cons]
+      by_cases hg : (!(g a).isEmpty) = true
+      · rw [List.filter_cons_of_pos (p := fun x : List B => !x.isEmpty) (by exact hg),
+          List.flatten_cons, List.length_append]; omega
+      · rw [List.filter_cons_of_neg (p := fun x : List B => !x.isEmpty) (by exact hg)]; omega
+    · rw [List.filter_cons_of_neg hp]; omega
+
+theorem getDomain_auth_length_le (s : Store) (n : Name) (sub : Bool) (now : Nat) :
+    (s.getDomain n (Filter.auth sub) now).flatten.length ≤ (authRecords s).length := by
+  unfold Store.getDomain authRecords
+  simp only [Filter.auth_matches_eq sub]
+  cases sub with
+  | true =>
+    have hs : (Filter.auth true).subdomain = true := rfl
+    simp only [hs, if_true]
+    split
+    · exact groups_length_le _ _ _
+    · simp
+  | false =>
+    have hs : (Filter.auth false).subdomain = false := rfl
+    simp only [hs, Bool.false_eq_true, if_false]
+    cases hb : s.bucket (getKey n) with
+    | none => simp
+    | some b =>
+      simp only
+      have hm := Store.bucket_mem hb
+      have hsub : List.Sublist ((b.filter (fun e => (Filter.auth true).matches e.2 0)).map (·.1))
+          (s.entries.flatMap
+            (fun e => (e.2.filter (fun x => (Filter.auth true).matches x.2 0)).map (·.1))) := by
+        rw [List.flatMap_def]
+        exact List.sublist_flatten_of_mem (List.mem_map.mpr ⟨(getKey n, b), hm, rfl⟩)
+      refine Nat.le_trans ?_ hsub.length_le
+      generalize (b.filter (fun e => (Filter.auth true).matches e.2 0)).map (·.1) = g
+      cases g <;> simp
+
+
+theorem length_flatMap_le {A B : Type} {l : List A} {f : A → List B} {n : Nat}
+    (h : ∀ a ∈ l, (f a).length ≤ n) : (l.flatMap f).length ≤ l.length * n := by
+  induction l with
+  | nil => simp
+  | cons a l ih =>
+    have h1 := h a (by simp)
+    have h2 := ih (fun x hx => h x (List.mem_cons_of_mem _ hx))
+    simp only [List.flatMap_cons, List.length_append, List.length_cons, Nat.add_mul, Nat.one_mul]
+    omega
+
+theorem answersOf_length_le (q : Packet) (s : Store) (now : Nat) :
+    (answersOf q s now).length ≤ q.questions.length * (authRecords s).length := by
+  unfold answersOf
+  rw [List.flatMap_map]
+  apply length_flatMap_le
+  intro qu _
+  simp only [answersFor]
+  exact Nat.le_trans (List.length_filter_le _ _) (getDomain_auth_length_le s _ true now)
+
+theorem dedupRR_nodup (l : List RR) : (dedupRR l).Nodup := by
+  induction l with
+  | nil => exact List.Pairwise.nil
+  | cons x xs ih =>
+    simp only [dedupRR]
+    rw [List.nodup_cons]
+    refine ⟨?_, ih.sublist List.filter_sublist⟩
+    intro hx
+    have := (List.mem_filter.mp hx).2
+    simp at this
+
+theorem mem_authRecords {s : Store} {k : Key} {b : Bucket} {x : RR} (hk : (k, b) ∈ s.entries)
+    (hx : (x, Kind.auth) ∈ b) : x ∈ authRecords s := by
+  unfold authRecords
+  rw [List.mem_flatMap]
+  exact ⟨(k, b), hk, List.mem_map.mpr ⟨(x, .auth), List.mem_filter.mpr ⟨hx, rfl⟩, rfl⟩⟩
+
+theorem extras_length_le (q : Packet) (s : Store) (now : Nat) :
+    (dedupRR (extrasOf q s now)).length ≤ (authRecords s).length := by
+  apply (dedupRR_nodup _).length_le_of_subset
+  intro x hx
+  obtain ⟨qu, _, a, _, t, _, hdom, _, _⟩ := mem_extrasOf.mp (mem_dedupRR hx)
+  obtain ⟨k, b, hk, hxb⟩ := mem_getDomain_auth hdom
+  exact mem_authRecords hk hxb
+
+/-- a sufficient condition in terms of sizes: at most 65 535 registered records, and the number of
+questions of the query times that number at most 65 535 (a one-question query: no more) -/
+theorem replyFits_of_size {s : Store} {q : Packet} {now : Nat} (hwf : AuthWF s)
+    (h1 : (authRecords s).length ≤ 65535)
+    (h2 : q.questions.length * (authRecords s).length ≤ 65535) : ReplyFits s q now :=
+  ⟨hwf, Nat.le_trans (answersOf_length_le q s now) h2, Nat.le_trans (extras_length_le q s now) h1⟩
+
 /-- the reply `build_reply` assembles is within DNS limits -/
 theorem reply_wf {q : Packet} {s : Store} {now : Nat} {r : Packet} {u : Bool}
     (hid : q.header.id < 65536) (hf : ReplyFits s q now) (h : buildReply q s now = some (r, u)) :
@@ -329,6 +433,17 @@ theorem reply_parseable_discovery {s s' : Store} {service full : Name} {d : Byte
   cases hb'
   exact ⟨r, hp, q, u, hq, hr⟩
 
+/-- the same with a hypothesis on sizes only: the registered records are well-formed, there are at
+most 65 535 of them, and the number of questions of the query times that number is at most 65 535
+(so: any one-question query) -/
+theorem reply_parseable_of_size {s : Store} {d : Bytes} {now : Nat} {bytes : Bytes}
+    (h : handleResponder s d now = .ok (some bytes)) (hwf : AuthWF s)
+    (h1 : (authRecords s).length ≤ 65535)
+    (h2 : ∀ q, Packet.parse d = .ok q → q.questions.length * (authRecords s).length ≤ 65535) :
+    ∃ p, Packet.parse bytes = .ok p :=
+  let ⟨p, hp, _⟩ := reply_parseable h (fun q hq => replyFits_of_size hwf h1 (h2 q hq))
+  ⟨p, hp⟩
+
 /-! ### 5. summary -/
 
 /-- **C14.** Every datagram is handled without a panic by the three services; the discovery
@@ -351,5 +466,82 @@ theorem datagram_handling_total_partial (s : Store) (d : Bytes) (now : Nat) (ser
     refine ⟨fun bytes h => ?_, fun s' bytes h => ?_⟩
     · obtain ⟨p, hp, _⟩ := reply_parseable h hf; exact ⟨p, hp⟩
     · obtain ⟨p, hp, _⟩ := reply_parseable_discovery h hf; exact ⟨p, hp⟩
+
+/-! ### a concrete responder -/
+
+namespace C14Ex
+
+def lbl : Label := [108, 111, 99, 97, 108]
+def nA : Name := [[97], lbl]
+def nBA : Name := [[98], [97], lbl]
+/-- `a.local A 10.0.0.1` -/
+def recA : RR := { name := nA, cls := .IN, ttl := 120, rdata := .flat 1 [.int 0x0A000001], flush := false }
+/-- `b.a.local SRV 0 0 80 a.local` -/
+def srvB : RR :=
+  { name := nBA, cls := .IN, ttl := 120, rdata := .flat 33 [.int 0, .int 0, .int 80, .name nA], flush := false }
+/-- `l.local LOC` with version 1: a record the serialiser refuses -/
+def locBad : RR :=
+  { name := [[108], lbl], cls := .IN, ttl := 120, flush := false,
+    rdata := .flat 29 [.int 1, .int 0, .int 0, .int 0, .int 0, .int 0, .int 0] }
+def st : Store := Store.empty.run [.addAuth recA, .addAuth srvB]
+def stBad : Store := st.addAuth locBad
+
+def query (n : Name) : Packet :=
+  { header := { id := 7, opcode := .StandardQuery, rcode := .NoError, flags := 0, opt := none },
+    questions := [{ name := n, qtype := .ANY, qclass := .CLASS .IN, unicast := false }],
+    answers := [], nameServers := [], additional := [] }
+
+/-- the query `a.local ANY IN` -/
+def qbytes : Bytes :=
+  [0, 7, 0, 0, 0, 1, 0, 0, 0, 0, 0, 0, 1, 97, 5, 108, 111, 99, 97, 108, 0, 0, 255, 0, 1]
+/-- the reply: `a.local A`, `b.a.local SRV` (owner compressed), additional `a.local A` -/
+def rbytes : Bytes :=
+  [0, 7, 128, 0, 0, 0, 0, 2, 0, 0, 0, 1,
+   1, 97, 5, 108, 111, 99, 97, 108, 0, 0, 1, 0, 1, 0, 0, 0, 120, 0, 4, 10, 0, 0, 1,
+   1, 98, 192, 12, 0, 33, 0, 1, 0, 0, 0, 120, 0, 15, 0, 0, 0, 0, 0, 80, 1, 97, 5, 108, 111, 99, 97, 108, 0,
+   192, 12, 0, 1, 0, 1, 0, 0, 0, 120, 0, 4, 10, 0, 0, 1]
+
+theorem qbytes_parse : Packet.parse qbytes = .ok (query nA) := by
+  obtain ⟨b, hb, hp⟩ := compressed_transparent (query nA) (by decide)
+  have : (query nA).buildCompressed = .ok qbytes := by decide +kernel
+  rw [this] at hb; cases hb; exact hp
+
+/-- the responder's answer to the datagram, byte for byte -/
+theorem responder_reply : handleResponder st qbytes 5 = .ok (some rbytes) := by
+  unfold handleResponder
+  have h1 : Peek.hasFlags qbytes 0x8000 = .ok false := by decide
+  rw [h1, qbytes_parse]
+  decide +kernel
+
+example : AuthWF st := by
+  intro k b hk r hr
+  have : ∀ e ∈ st.entries, ∀ x ∈ e.2, x.1.WF := by decide
+  exact this (k, b) hk (r, .auth) hr
+
+/-- … which parses (here through the theorem) -/
+example : ∃ p, Packet.parse rbytes = .ok p := by
+  refine reply_parseable_of_size responder_reply ?_ (by decide) ?_
+  · intro k b hk r hr
+    have : ∀ e ∈ st.entries, ∀ x ∈ e.2, x.1.WF := by decide
+    exact this (k, b) hk (r, .auth) hr
+  · intro q hq
+    rw [qbytes_parse] at hq
+    cases hq
+    decide
+
+/-- a registered record that cannot be written: a reply is due, serialising it fails, the error is
+logged and nothing is sent; no panic -/
+example : buildReply (query [[108], lbl]) stBad 5 ≠ none ∧
+    sendReply (buildReply (query [[108], lbl]) stBad 5) = .ok none := by decide +kernel
+
+/-- garbage is dropped by all three services -/
+example : handleResponder st [1, 2, 3] 0 = .ok none ∧ handleResolver [1, 2, 3] = .ok none ∧
+    handleDiscovery st nA nBA [1, 2, 3] 0 = .ok (st, none) := by
+  refine ⟨by decide, by decide, ?_⟩
+  have : Packet.parse [1, 2, 3] = .err := by decide
+  unfold handleDiscovery
+  rw [this]
+
+end C14Ex
 
 end Dns.Mdns
